@@ -192,11 +192,12 @@ class Machine:
         return ext(self.v[idx], bits - 1, 0)
 
     def wv(self, idx, val, bits, zero_upper=True):
-        if self.cuts is not None and not is_c(val):
-            if bits == 128:
+        if self.cuts is not None and not is_c(val) and (getattr(self, "canon_mnems", None) is None or self.cur.mnem in self.canon_mnems):
+            eb = getattr(self.cuts, "elem_bits", 128)
+            if bits == eb:
                 val = self.cuts.canon(val)
             else:
-                val = join([self.cuts.canon(x) for x in lanes(val, bits, 128)], 128)
+                val = join([self.cuts.canon(x) for x in lanes(val, bits, eb)], eb)
         if bits == 512:
             self.v[idx] = val
         elif zero_upper:
@@ -250,6 +251,12 @@ class Machine:
         if re.match(r"^-?(0x[0-9a-f]+|\d+)$", core):
             v = int(core, 0)
             return (v & mask(bits or 64)), bits
+        mb = re.match(r"^(DWORD|QWORD) BCST \[([^\]]+)\]$", core)
+        if mb:
+            eb = SIZE_KW[mb.group(1)]
+            e = self.mem.load(self.addr_of(mb.group(2)), eb, self.where())
+            n = (bits or 512) // eb
+            return join([e] * n, eb), eb * n
         m = _mem.match(core)
         if m:
             b = SIZE_KW[m.group(1)] if m.group(1) else bits
@@ -838,20 +845,27 @@ class Machine:
         h.esz = esz
         return h
 
+    def _lw(self, fn, a, b, w):
+        """whole-register logic: element-wise when the run works on 32/64-bit elements (keeps terms as concats of elements)"""
+        e = getattr(self, "elem", None)
+        if e and w > e and not (is_c(a) and is_c(b)):
+            return join([fn(x, y, e) for x, y in zip(lanes(a, w, e), lanes(b, w, e))], e)
+        return fn(a, b, w)
+
     def x_pxor(self, a, b, w, imm, vals, c):
-        return bxor(a, b, w)
+        return self._lw(bxor, a, b, w)
     x_xorps = x_xorpd = x_pxord = x_pxorq = x_pxor
 
     def x_pand(self, a, b, w, imm, vals, c):
-        return band(a, b, w)
+        return self._lw(band, a, b, w)
     x_andps = x_andpd = x_pandd = x_pandq = x_pand
 
     def x_por(self, a, b, w, imm, vals, c):
-        return bor(a, b, w)
+        return self._lw(bor, a, b, w)
     x_orps = x_orpd = x_pord = x_porq = x_por
 
     def x_pandn(self, a, b, w, imm, vals, c):
-        return band(bnot(a, w), b, w)
+        return self._lw(lambda x, y, n: band(bnot(x, n), y, n), a, b, w)
     x_andnps = x_pandnd = x_pandnq = x_pandn
 
     def x_paddd(self, a, b, w, imm, vals, c):
@@ -909,6 +923,12 @@ class Machine:
     def x_psrldq(self, a, b, w, imm, vals, c):
         n = min(imm, 16)
         return join([bshr(x, 8 * n, 128) for x in lanes(a, w, 128)], 128)
+
+    def x_prold(self, a, b, w, imm, vals, c):
+        return join([brol(x, imm % 32, 32) for x in lanes(a, w, 32)], 32)
+
+    def x_prolq(self, a, b, w, imm, vals, c):
+        return join([brol(x, imm % 64, 64) for x in lanes(a, w, 64)], 64)
 
     def x_prord(self, a, b, w, imm, vals, c):
         return join([bror(x, imm % 32, 32) for x in lanes(a, w, 32)], 32)
@@ -1007,9 +1027,14 @@ class Machine:
         b = self.rd(ops[1], w)[0]
         c = self.rd(ops[2], w)[0]
         imm = int(ops[3], 0)
-        if imm == 0x96:
-            res = bxor(bxor(a, b, w), c, w)
-        else:
+
+        def tern(a, b, c, w):
+            if imm == 0x96:
+                return bxor(bxor(a, b, w), c, w)
+            if imm == 0xca:      # a ? b : c
+                return bor(band(a, b, w), band(bnot(a, w), c, w), w)
+            if imm == 0xe8:      # majority
+                return bor(bor(band(a, b, w), band(a, c, w), w), band(b, c, w), w)
             res = 0
             for idx in range(8):
                 if (imm >> idx) & 1:
@@ -1017,6 +1042,12 @@ class Machine:
                     tb = b if idx & 2 else bnot(b, w)
                     tc = c if idx & 1 else bnot(c, w)
                     res = bor(res, band(band(ta, tb, w), tc, w), w)
+            return res
+        e = getattr(self, "elem", None)
+        if e and w > e:
+            res = join([tern(x, y, z_, e) for x, y, z_ in zip(lanes(a, w, e), lanes(b, w, e), lanes(c, w, e))], e)
+        else:
+            res = tern(a, b, c, w)
         self.wr(core, res, w)
     i_vpternlogd = i_vpternlogq
 
@@ -1215,6 +1246,41 @@ class Machine:
             return (a + b)[c & 3]
         self.wr(core, join([sel(imm & 0xf), sel((imm >> 4) & 0xf)], 128), 256)
     i_vperm2f128 = i_vperm2i128
+
+    def _vperm2(self, i, ops, ew, idx_is_dst):
+        """vpermi2*/vpermt2*: two-table permute; indices from dst (i2) or from the first source (t2)"""
+        core, kreg, zm = self.opinfo(ops[0])
+        if kreg is not None:
+            raise Unsupported("masked two-table permute")
+        w = {"x": 128, "y": 256, "z": 512}[_vreg.match(core).group(1)]
+        d = self.rd(core, w)[0]
+        s1 = self.rd(ops[1], w)[0]
+        s2 = self.rd(ops[2], w)[0]
+        if idx_is_dst:
+            idxv, ta, tb = d, s1, s2
+        else:
+            idxv, ta, tb = s1, d, s2
+        n = w // ew
+        tbl = lanes(ta, w, ew) + lanes(tb, w, ew)
+        out = []
+        for e in lanes(idxv, w, ew):
+            e = simp(e)
+            if not is_c(e):
+                raise Unsupported("two-table permute with symbolic indices")
+            out.append(tbl[e & (2 * n - 1)])
+        self.wr(core, join(out, ew), w)
+
+    def i_vpermi2q(self, i, ops):
+        self._vperm2(i, ops, 64, True)
+
+    def i_vpermt2q(self, i, ops):
+        self._vperm2(i, ops, 64, False)
+
+    def i_vpermi2d(self, i, ops):
+        self._vperm2(i, ops, 32, True)
+
+    def i_vpermt2d(self, i, ops):
+        self._vperm2(i, ops, 32, False)
 
     def i_vpshrdq(self, i, ops):
         core = self.opinfo(ops[0])[0]
